@@ -1,7 +1,7 @@
 #!/bin/bash
 # usage: tools_seedtest.sh <patch.diff> <prop> [<prop> ...]   -- applies the patch to /repo, runs the quick checks, reverts
 set -u
-patch=$1; shift
+patch=$(realpath $1); shift
 cd /repo
 if ! git apply --check "$patch" 2>/dev/null; then
   if ! git apply --3way "$patch" 2>/dev/null; then echo "PATCH DOES NOT APPLY: $patch"; git checkout -- . ; git reset -q; exit 3; fi
